@@ -84,6 +84,34 @@ CLAIMED = {
         technique="TLA+ model of the client against a breaking-stream environment checked by TLC; fault enumeration at every byte offset "
                   "of recorded streams against the real client; trace validation",
         design="5/C08", engine="tlc-exhaustive"),
+    "C09": dict(
+        text="spec/Meta.tla transcribes the meta-schema independently of the Go tables as a field table over abstract description trees "
+             "(Describe, MetaAccepts, Rebuild with separate accept / link / first-use steps); TLC checks Describable, FixedPoint "
+             "(describe-rebuild-describe under the identity, CBOR, YAML and JSON transforms) and SameBehaviour for generated scopes and "
+             "plugin schemas using every type kind, units, enums with and without display data, defaults, presence rules, nested scopes, "
+             "namespaced and recursive references, signal handlers and emitters. Verdicts come from real artefacts: SelfSerialize must "
+             "succeed and the real meta-schema accept it directly, after real CBOR, YAML and JSON; re-describing the rebuilt schema must "
+             "give the identical tree; original and rebuilt schema must agree on generated inputs; Client.ReadSchema against the real "
+             "server for plugin schemas. Field-by-field differences to the model's Describe are drift only. Random larger schemas are "
+             "validated by MetaTrace.tla.",
+        note=TRUST + "The harness's AST builder; yaml.v3, encoding/json and fxamacker/cbor as transports; descriptions in minimal form (optional "
+             "fields omitted) give drift, not violations.",
+        technique="independent TLA+ transcription of the meta-schema checked by TLC (fixed point, describability); real "
+                  "describe/rebuild/describe round trips compared; recorded stage outcomes validated by a trace spec",
+        design="5/C09", engine="tlc-exhaustive"),
+    "C10": dict(
+        text="spec/Meta.tla's Rebuild separates accept -> link -> first use exactly as the code does; TLC enumerates all single (quick) "
+             "and double (thorough) structural mutations - delete, retype, rename, duplicate, re-point - at every node of the valid "
+             "descriptions of the C09 universe plus grammar-free trees, classifies each as Reject or Accept with the rebuilt schema "
+             "and checks AcceptedImpliesUsable. Each mutated description is given to UnserializeScope, UnserializeSchema and "
+             "Client.ReadSchema (scripted server sending the mutated hello) in the supervised worker; whatever schema is returned is "
+             "exercised at every input, output and signal schema with the value classes of C04 and SelfSerialize: error-or-usable; a "
+             "panic at load or on first use is the violation (signature: stage, kind, mutation class, SDK frame).",
+        note=TRUST + "Stack-overflow recursions reachable on valid schemas (C04's subject) are skipped by the exerciser and counted; the model's "
+             "accept/reject classification is compared as drift.",
+        technique="TLA+ model of description acceptance, linking and first use with mutation operators enumerated by TLC; mutants fed to "
+                  "the real loaders in a supervised worker; trace validation",
+        design="5/C10", engine="tlc-exhaustive"),
     "C11": dict(
         text="spec/Steps.tla is a state machine of CallStep/CallSignal (lookup, input unserialization, the initializer critical "
              "section shared by step and signal paths, handler invocation, output checks) with a ledger of handler invocations; TLC "
